@@ -1,6 +1,7 @@
 (** C01 -- t2data.write() / t2data.read(): update_sections, the keyword dispatch (tied to the
-    dispatch dictionaries regenerated from the source), COMBINATOR 4: the keyword loop with
-    the PARAM look-ahead line, ENDCY / ENDFI. *)
+    dispatch dictionaries regenerated from the source), the keyword loop with the PARAM
+    look-ahead line, ENDCY / ENDFI, the separate ASCII mesh file and the extra-precision
+    companion file. *)
 From Coq Require Import Ascii String List Bool Arith ZArith NArith Lia.
 From PTBase Require Import Exn PyStr PyNum PyVal Fmt FixedFormat.
 From Gen Require Import GenTables GenSections.
@@ -78,7 +79,6 @@ Definition update_sections (d : t2d) : list str :=
   fold_left (fun l k => remove_first k l) extra secs1.
 
 (** ** dispatch by the names in the regenerated write_fn / read_fn dictionaries *)
-Definition unmodelled {A} : res A := Raise PlainException.
 Definition write_method (T : table) (d : t2d) (m : string) : res file :=
   if m =? "write_simulator" then write_simulator d
   else if m =? "write_rocktypes" then write_rocks T d
@@ -91,22 +91,36 @@ Definition write_method (T : table) (d : t2d) (m : string) : res file :=
   else if m =? "write_solver" then write_solver T d
   else if m =? "write_multi" then write_multi T d
   else if m =? "write_times" then write_times T d
+  else if m =? "write_selection" then write_selection T d
+  else if m =? "write_diffusion" then write_diffusion T d
   else if m =? "write_blocks" then write_blocks T d
   else if m =? "write_connections" then write_conns T d
+  else if m =? "write_meshmaker" then write_meshmaker T d
   else if m =? "write_generators" then write_gens T d
+  else if m =? "write_short_output" then write_short d
+  else if m =? "write_history_blocks" then write_hist_block d
+  else if m =? "write_history_connections" then write_hist_conn d
+  else if m =? "write_history_generators" then write_hist_gen d
   else if m =? "write_incons" then write_incons T d
-  else write_methodB T d m.
-Definition write_section (T : table) (d : t2d) (k : str) : res file :=
-  match slookup k write_fn_names with Some m => write_method T d m | None => Raise KeyError end.
+  else if m =? "write_indom" then write_indom T d
+  else Raise PlainException.
+Definition write_section (T : table) (names : list (string * string)) (d : t2d) (k : str) : res file :=
+  match slookup k names with Some m => write_method T d m | None => Raise KeyError end.
 
 Definition param_keywords : list str := kws (t2data_sections +++ param_lookahead_extra).
+Definition end_kws : list str := kws end_keywords.
 (** a reader returns the object, the look-ahead line (PARAM only) and the remaining lines;
     [line] is the keyword line itself (SHORT reads its frequency from it) *)
 Definition lift (r : res (t2d * file)) : res (t2d * option str * file) :=
   do x <- r; Ok (fst x, None, snd x).
+(** [while infile.readline().strip(): pass] *)
+Fixpoint skip_to_blank (fuel : nat) (ls : file) : res file :=
+  match fuel with
+  | O => Raise OutOfFuel
+  | S f => let (l, r) := readline ls in if blank l then Ok r else skip_to_blank f r
+  end.
 Definition read_method (T : table) (d : t2d) (m : string) (line : str) (ls : file) : res (t2d * option str * file) :=
-  if m =? "read_simulator" then lift (read_simulator T d ls)
-  else if m =? "read_rocktypes" then lift (read_rocks T d ls)
+  if m =? "read_rocktypes" then lift (read_rocks T d ls)
   else if m =? "read_parameters" then read_param T param_keywords d ls
   else if m =? "read_more_options" then lift (read_momop T d ls)
   else if m =? "read_start" then Ok (set_start d true, None, ls)
@@ -116,26 +130,111 @@ Definition read_method (T : table) (d : t2d) (m : string) (line : str) (ls : fil
   else if m =? "read_solver" then lift (read_solver T d ls)
   else if m =? "read_multi" then lift (read_multi T d ls)
   else if m =? "read_times" then lift (read_times T d ls)
+  else if m =? "read_selection" then lift (read_selection T d ls)
+  else if m =? "read_diffusion" then lift (read_diffusion T d ls)
   else if m =? "read_blocks" then lift (read_blocks T d ls)
   else if m =? "read_connections" then lift (read_conns T d ls)
+  else if m =? "read_meshmaker" then lift (read_meshmaker T d ls)
   else if m =? "read_generators" then lift (read_gens T d ls)
+  else if m =? "read_short_output" then lift (read_short T d line ls)
+  else if m =? "read_history_blocks" then lift (read_hist_block d ls)
+  else if m =? "read_history_connections" then lift (read_hist_conn d ls)
+  else if m =? "read_history_generators" then lift (read_hist_gen d ls)
   else if m =? "read_incons" then lift (read_incons T d ls)
-  else lift (read_methodB T d m line ls).
+  else if m =? "read_indom" then lift (read_indom T d ls)
+  else if m =? "skip_rocktypes" then do r <- skip_to_blank (S (length ls)) ls; Ok (d, None, r)
+  else if m =? "skip_blocks" then do r <- skip_to_blank (S (length ls)) ls; Ok (d, None, r)
+  else if m =? "skip_connections" then do r <- skip_to_blank (S (length ls)) ls; Ok (d, None, r)
+  else if m =? "skip_generators" then do r <- skip_to_blank (S (length ls)) ls; Ok (d, None, r)
+  else if m =? "skip_rpcap" then Ok (d, None, snd (readline (snd (readline ls))))
+  else Raise PlainException.
 
-(** ** write(): main file only (mesh in-file, no extra precision) *)
 Definition T0 : table := t2data_format.
-Fixpoint write_sections (T : table) (d : t2d) (secs : list str) : res file :=
+Definition T1 : table := t2data_extra_format.
+
+(** ** write() *)
+Record wcfg := mk_wcfg { w_mesh : nat;                   (* 0 in-file, 1 ASCII mesh file, 2 binary pair (not modelled: only left out of the main file) *)
+                         w_xp : option (list str);       (* extra_precision argument, normalised to a list; None = not given *)
+                         w_echo : option bool }.
+Record files := mk_files { f_main : file; f_mesh : option file; f_pdat : option file }.
+
+Fixpoint write_sections (T : table) (names : list (string * string)) (d : t2d) (secs : list str) : res file :=
   match secs with
   | [] => Ok []
-  | k :: r => do a <- write_section T d k; do b <- write_sections T d r; Ok (a +++ b)
+  | k :: r => do a <- write_section T names d k; do b <- write_sections T names d r; Ok (a +++ b)
   end.
+(** the extra_precision / echo_extra_precision property setters, then write_extra_precision *)
+Definition set_xp_arg (d : t2d) (v : list str) : t2d :=
+  let removed := filter (fun k => negb (in_str k v)) (filter (fun k => in_str k (xprec d)) all_sections) in
+  set_xprec (set_sections d (fold_left (insert_section all_sections) removed (sections d))) v.
+Definition set_echo_arg (d : t2d) (b : bool) : t2d :=
+  if Bool.eqb b (xecho d) then d
+  else set_xecho (set_sections d (if b then fold_left (insert_section all_sections) (xprec d) (sections d)
+                                  else fold_left (fun l k => remove_first k l) (xprec d) (sections d))) b.
+Definition write_xp (c : wcfg) (d : t2d) : res (t2d * option file) :=
+  let d1 := match w_xp c with Some v => set_xp_arg d v | None => d end in
+  let d2 := match w_echo c with Some b => set_echo_arg d1 b | None => d1 end in
+  match xprec d2 with
+  | [] => Ok (d2, None)
+  | xs => do body <- write_sections T1 xp_write_fn_names d2 xs;
+          let secs := if xecho d2 then sections d2 else fold_left (fun l k => remove_first k l) xs (sections d2) in
+          Ok (set_sections d2 secs, Some body)
+  end.
+Definition mesh_kws : list str := [s2l "ELEME"; s2l "CONNE"].
+Definition write_files (c : wcfg) (d : t2d) : res (t2d * files) :=
+  let d0 := set_sections d (update_sections d) in
+  do mesh <- match w_mesh c with
+             | 1%nat => do a <- write_blocks T0 d0; do b <- write_conns T0 d0; Ok (Some (a +++ b))
+             | _ => Ok None end;
+  let mesh_sections := match w_mesh c with O => [] | _ => mesh_kws end in
+  do x <- (if autough2 d0 then write_xp c d0 else Ok (d0, None));
+  let (d1, pdat) := x in
+  let secs := filter (fun k => negb (in_str k mesh_sections) && (negb (in_str k (xprec d1)) || xecho d1)) (sections d1) in
+  do body <- write_sections T0 write_fn_names d1 secs;
+  Ok (d1, mk_files (write_title d1 +++ body +++ [end_keyword d1 +++ [nl]]) mesh pdat).
 Definition write_lines (d : t2d) : res file :=
-  do body <- write_sections T0 d (update_sections d);
-  Ok (write_title d +++ body +++ [end_keyword d +++ [nl]]).
+  do x <- write_files (mk_wcfg 0 None None) d; Ok (f_main (snd x)).
 
-(** ** read(): COMBINATOR 4 *)
-Definition end_kws : list str := kws end_keywords.
-Fixpoint read_loop (fuel : nat) (d : t2d) (next : option str) (ls : file) : res t2d :=
+(** ** read() *)
+(** read_extra_precision: the companion file, keyword by keyword *)
+Fixpoint read_xp_loop (fuel : nat) (d : t2d) (ls : file) : res t2d :=
+  match fuel with
+  | O => Raise OutOfFuel
+  | S f =>
+      match ls with
+      | [] => Ok d
+      | line :: r =>
+          let keyword := strip (slice 0 5 line) in
+          if in_str keyword end_kws then Ok d
+          else match slookup keyword xp_read_fn_names with
+               | Some m =>
+                   do x <- read_method T1 (set_xprec d (xprec d +++ [keyword])) m line r;
+                   let '(d', _, r') := x in read_xp_loop f d' r'
+               | None => read_xp_loop f d r
+               end
+      end
+  end.
+Definition read_xp (d : t2d) (pdat : file) : res t2d :=
+  do d1 <- read_xp_loop (S (length pdat)) d pdat;
+  match xprec d1 with
+  | [] => Ok (set_echo_arg d1 false)
+  | xs => Ok (set_echo_arg d1 (existsb (fun k => in_str k (sections d1)) xs))
+  end.
+Definition read_simulator_xp (d : t2d) (pdat : option file) (ls : file) : res (t2d * option str * file) :=
+  do x <- read_simulator T0 d ls;
+  let (d1, r) := x in
+  if autough2 d1 then
+    match pdat with
+    | Some p => do d2 <- read_xp d1 p; Ok (d2, None, r)
+    | None => Ok (d1, None, r)
+    end
+  else Ok (d1, None, r).
+(** read_fn as update_read_write_functions leaves it: skip functions for the extra-precision
+    sections that are not echoed *)
+Definition reader_name (d : t2d) (keyword : str) : option string :=
+  if negb (xecho d) && in_str keyword (xprec d) then slookup keyword skip_fn_names
+  else slookup keyword read_fn_names.
+Fixpoint read_loop (fuel : nat) (pdat : option file) (d : t2d) (next : option str) (ls : file) : res t2d :=
   match fuel with
   | O => Raise OutOfFuel
   | S f =>
@@ -147,23 +246,42 @@ Fixpoint read_loop (fuel : nat) (d : t2d) (next : option str) (ls : file) : res 
       | _ =>
           let keyword := strip (slice 0 5 line) in
           if in_str keyword end_kws then Ok (set_end_keyword d keyword)
-          else match (if in_str keyword all_sections then slookup keyword read_fn_names else None) with
-               | Some m =>
-                   do x <- read_method T0 d m line r;
-                   let '(d', look, r') := x in
-                   read_loop f (set_sections d' (sections d' +++ [keyword])) look r'
-               | None => if in_str keyword all_sections then Raise KeyError else read_loop f d next r
-               end
+          else if in_str keyword all_sections then
+            match reader_name d keyword with
+            | Some m =>
+                do x <- (if m =? "read_simulator" then read_simulator_xp d pdat r else read_method T0 d m line r);
+                let '(d', look, r') := x in
+                read_loop f pdat (set_sections d' (sections d' +++ [keyword])) look r'
+            | None => Raise KeyError
+            end
+          else read_loop f pdat d next r
       end
   end.
-Definition read_lines (ls : file) : res t2d :=
-  let (d, r) := read_title T0 empty_t2d ls in
-  read_loop (2 * length ls + 2) (set_sections d []) None r.
-
-(** bytes <-> lines *)
-Fixpoint split_lines_aux (cur : str) (acc : file) (s : str) : file :=
-  match s with
-  | [] => rev_append acc (match cur with [] => [] | _ => [rev_append cur []] end)
-  | c :: r => if ceqb c nl then split_lines_aux [] (rev_append cur [nl] :: acc) r else split_lines_aux (c :: cur) acc r
+(** read_meshfile *)
+Fixpoint read_mesh_loop (fuel : nat) (d : t2d) (ls : file) : res t2d :=
+  match fuel with
+  | O => Raise OutOfFuel
+  | S f =>
+      match ls with
+      | [] => Ok d
+      | line :: r =>
+          let keyword := strip (slice 0 5 line) in
+          if str_eqb keyword (s2l "ELEME") then
+            do x <- read_blocks T0 d r; read_mesh_loop f (set_sections (fst x) (sections (fst x) +++ [keyword])) (snd x)
+          else if str_eqb keyword (s2l "CONNE") then
+            do x <- read_conns T0 d r; read_mesh_loop f (set_sections (fst x) (sections (fst x) +++ [keyword])) (snd x)
+          else read_mesh_loop f d r
+      end
   end.
-Definition split_lines (s : str) : file := split_lines_aux [] [] s.
+Definition read_files (fs : files) : res t2d :=
+  let ls := f_main fs in
+  let (d, r) := read_title T0 empty_t2d ls in
+  do d1 <- read_loop (2 * length ls + 2) (f_pdat fs) (set_sections d []) None r;
+  let d2 := if read_reinfers_echo then
+              match xprec d1 with [] => d1 | xs => set_xecho d1 (existsb (fun k => in_str k (sections d1)) xs) end
+            else d1 in
+  match f_mesh fs, blocks d2 with
+  | Some m, [] => read_mesh_loop (S (length m)) d2 m
+  | _, _ => Ok d2
+  end.
+Definition read_lines (ls : file) : res t2d := read_files (mk_files ls None None).
